@@ -76,7 +76,7 @@ def run(report, tier, seed):
     E = catalogue.entries()
     M = catalogue.method_spellings()
     mk = mk_factory(rng)
-    reps = 3 if tier == "quick" else 40
+    reps = 12 if tier == "quick" else 60
     n_eval = 0
     dispatched = set()
     skipped = []
@@ -117,11 +117,49 @@ def run(report, tier, seed):
                 for label, o in outs.items():
                     agree = (o[0] == base[0]) and (o[1] == base[1] if o[0] == "err" else same_result(o[1], base[1]))
                     if not agree:
-                        viol.append((f"spelling:{name}:{label}",
+                        kind = f"spelling:{name}:{label}"
+                        if name == "repeat" and "axis" not in kw and getattr(args[0], "ndim", 0) >= 2:
+                            kind = "repeat:default-axis"       # D21: numpoly.repeat defaults to axis=0, ndarray.repeat flattens
+                        viol.append((kind,
                                      f"numpy/numpoly/method spellings of {name} disagree ({label} vs numpoly): "
                                      f"{str(o)[:200]} vs {str(base)[:200]}; args={[gen.describe(a) if isinstance(a, numpoly.ndpoly) else str(a)[:60] for a in args]} kwargs={kw}",
                                      {"name": name, "label": label}))
                         break
+    # ---- / % divmod and their reflected forms are spellings of poly_divide / poly_remainder / poly_divmod -----------
+    import operator
+    from harness.props import c05
+    for _ in range(reps * 4):
+        names = tuple(sorted(rng.sample([0, 1, 2], rng.choice([1, 2]))))
+        s1, s2 = gen.broadcast_pair(rng, 2)
+        kindd = rng.choice(["poly", "poly", "const", "const0", "left"])
+        f = c05.rand_poly(rng, s1, names, rng.randint(1, 3), 2)
+        if kindd == "poly":
+            g = c05.rand_poly(rng, s2, names, rng.randint(1, 2), 2, divisor=True)
+        elif kindd == "const":
+            g = numpy.array([rng.choice([1, -1, 2, 4, 0.5]) for _ in range(int(numpy.prod(s2)) if s2 else 1)]).reshape(s2)
+        elif kindd == "const0":      # constant divisors with zero entries: numeric division would give inf/nan
+            g = numpy.array([rng.choice([0, 0, 2, -1]) for _ in range(int(numpy.prod(s2)) if s2 else 1)]).reshape(s2)
+            if rng.random() < 0.5:
+                g = numpoly.polynomial(g)
+        else:
+            g, f = c05.rand_poly(rng, s2, names, rng.randint(1, 2), 2, divisor=True), rng.choice([3, 2.0, numpy.array([1.0, 4.0])])
+            try:
+                numpy.broadcast_shapes(numpy.shape(f), s2)
+            except ValueError:
+                f = 3
+        n_eval += 1
+        st, ops = core.forked(c05.run_ops, f, g, timeout=60)
+        if st != "ok":
+            continue
+        ref = ops["poly_divmod"]
+        for k, comp in (("poly_divide", 0), ("poly_remainder", 1), ("/", 0), ("%", 1)):
+            if k in ops and ref[0] == "ok" and (ops[k][0] != "ok" or ops[k][1] != ref[1][comp]):
+                viol.append((f"operator:{k}", f"{k} on ({gen.describe(f)}, {gen.describe(g)}) = {str(ops[k])[:160]} is not component {comp} of "
+                             f"poly_divmod = {str(ref[1][comp])[:160]}", {"operator": k}))
+        if "divmod" in ops and ops["divmod"] != ref:
+            viol.append(("operator:divmod", f"divmod() differs from poly_divmod on ({gen.describe(f)}, {gen.describe(g)})", {"operator": "divmod"}))
+        dispatched.add(("operator-division", kindd))
+
     # reduce / accumulate spellings
     for uf, fn in ((numpy.add, "sum"), (numpy.multiply, "prod"), (numpy.logical_and, "all"), (numpy.logical_or, "any"),
                    (numpy.maximum, "amax"), (numpy.minimum, "amin")):
